@@ -776,6 +776,31 @@ impl Vm {
   #[verifier::external_body] pub fn verif_global_get(&self, name: LyStr) -> (r: Option<Value>) ensures r == global_symbol(name) { None }
 }
 
+// ---- string interpolation (C01, C16): n-ary concatenation buffer -------------------------------------------------------------
+pub uninterp spec fn str_empty() -> LyStr;
+pub open spec fn concat_all(parts: Seq<LyStr>) -> LyStr decreases parts.len() {
+  if parts.len() == 0 { str_empty() } else { str_concat(concat_all(parts.drop_last()), parts.last()) }
+}
+impl StrBuf {
+  /// String::with_capacity(n)
+  #[verifier::external_body] pub fn verif_with_capacity(n: usize) -> (r: StrBuf) ensures r.content() == str_empty() { StrBuf { p: 0 } }
+  /// push_str(&s)
+  #[verifier::external_body] pub fn verif_push(&mut self, s: LyStr) ensures final(self).content() == str_concat(old(self).content(), s) { }
+}
+pub uninterp spec fn str_len(s: LyStr) -> nat;
+impl LyStr {
+  #[verifier::external_body] pub fn len(&self) -> (r: usize) ensures r == str_len(*self) { 0 }
+}
+/// total byte length of the first k string values of a sequence
+pub open spec fn sum_len(parts: Seq<Value>, k: int) -> nat decreases k {
+  if k <= 0 { 0 } else { sum_len(parts, k - 1) + str_len(o_str(v_obj(parts[k - 1]))) }
+}
+pub proof fn lemma_sum_len_mono(parts: Seq<Value>, j: int, k: int)
+  requires 0 <= j <= k,
+  ensures sum_len(parts, j) <= sum_len(parts, k),
+  decreases k - j
+{ if j < k { lemma_sum_len_mono(parts, j, k - 1); } }
+
 // R12: if_let_obj! / to_obj_kind! copied from laythe_core/src/macros.rs with the `$crate::` prefixes and `use` lines removed
 macro_rules! to_obj_kind {
   ($o:expr, Channel) => {
